@@ -375,3 +375,23 @@ func sysUnicodeStrings(f *File) []edit {
 	})
 	return eds
 }
+
+// ---------- prepend-stmt ----------
+// Every function body gets the statement `_ = 0` in front of its first statement. Nothing a diagnostic is about changes, so
+// every diagnostic of the original file must re-appear at the same place (offsets mapped back through the insertions): a
+// diagnostic that lands on the inserted statement was anchored at "the first statement of the block", not at its subject.
+func sysPrependStmt(f *File) ([]edit, []insertion) {
+	var eds []edit
+	var ins []insertion
+	for _, d := range f.AST.Decls {
+		fd, ok := d.(*ast.FuncDecl)
+		if !ok || fd.Body == nil || len(fd.Body.List) == 0 {
+			continue
+		}
+		at := off(fd.Body.List[0].Pos())
+		text := "_ = 0; "
+		eds = append(eds, edit{at, at, text})
+		ins = append(ins, insertion{at, len(text)})
+	}
+	return eds, ins
+}
